@@ -451,10 +451,13 @@ var fixedFamily = []template{
 	{name: "error-asap", query: []tmplEv{{'x', 'F'}}, sub: []tmplEv{{'x', 'F'}, {'d', 'L'}}},
 	{name: "finish-late", query: []tmplEv{{'f', 'L'}}, sub: []tmplEv{{'d', 'F'}, {'d', 'L'}}},
 	{name: "error-late", query: []tmplEv{{'x', 'L'}}, sub: []tmplEv{{'d', 'F'}, {'x', 'L'}}},
-	{name: "finish-next", query: []tmplEv{{'f', 'N'}}, sub: []tmplEv{{'f', 'N'}, {'d', 'L'}}},
 	{name: "spread", query: []tmplEv{{'f', 'N'}}, sub: []tmplEv{{'d', 'F'}, {'d', 'N'}, {'f', 'L'}}},
+	{name: "finish-next", query: []tmplEv{{'f', 'N'}}, sub: []tmplEv{{'f', 'N'}, {'d', 'L'}}},
 	{name: "error-next", query: []tmplEv{{'x', 'N'}}, sub: []tmplEv{{'x', 'N'}, {'x', 'L'}}},
 }
+
+// quickFamily is the part of the family the quick tier uses for the longest enumerated words.
+var quickFamily = fixedFamily[:6]
 
 func (t template) instantiate(p proto, w []sym) schedule {
 	var sc schedule
@@ -491,9 +494,9 @@ func scheduleKey(sc schedule) string {
 // fixedSchedules instantiates the family for a word, dropping duplicates. lateOnly[i] tells whether
 // schedule i leaves operations pending while later client messages arrive (so that what a cancelled
 // executor returns matters).
-func fixedSchedules(p proto, w []sym) (out []schedule, pendingLate []bool) {
+func fixedSchedules(p proto, w []sym, family []template) (out []schedule, pendingLate []bool) {
 	seen := map[string]bool{}
-	for _, t := range fixedFamily {
+	for _, t := range family {
 		sc := t.instantiate(p, w)
 		k := scheduleKey(sc)
 		if seen[k] {
